@@ -16,6 +16,11 @@ import (
 type UnsyncSink struct {
 	Writes []UnsyncWrite
 	Closed int
+	// FailAt > 0: the FailAt-th write stalls for FailStall (the receiver keeps matching replies meanwhile) and then
+	// fails with FailErr - the error path of a send runs concurrently with the receive path. Private to the sender.
+	FailAt    int
+	FailStall time.Duration
+	FailErr   error
 }
 
 // UnsyncWrite is one packet handed to the sink.
@@ -26,6 +31,10 @@ type UnsyncWrite struct {
 
 func (s *UnsyncSink) WriteTo(buf []byte, _ netip.AddrPort) error {
 	s.Writes = append(s.Writes, UnsyncWrite{At: time.Now(), Bytes: append([]byte(nil), buf...)})
+	if s.FailAt > 0 && len(s.Writes) == s.FailAt {
+		time.Sleep(s.FailStall)
+		return s.FailErr
+	}
 	return nil
 }
 
